@@ -34,13 +34,22 @@ def _evaluate(args):
         src = open(path, encoding="utf-8").read()
     except OSError:
         return name, kind, "n/a", "file missing"
-    if name.endswith("*"):
+    if isinstance(old, (list, tuple)):
+        # several coordinated replacements (each replaces all its occurrences)
+        new_src = src
+        for o, n_ in zip(old, new):
+            if new_src.count(o) < 1:
+                return name, kind, "n/a", f"anchor text does not occur: {o[:40]!r}"
+            new_src = new_src.replace(o, n_)
+    elif name.endswith("*"):
         # replace-all variant (e.g. a local rename)
         if src.count(old) < 1:
             return name, kind, "n/a", "anchor text does not occur"
+        new_src = src.replace(old, new)
     elif src.count(old) != 1:
         return name, kind, "n/a", f"anchor text occurs {src.count(old)} times"
-    new_src = src.replace(old, new)
+    else:
+        new_src = src.replace(old, new)
     try:
         repo = Repo(overlay={rel: new_src})
         if repo.parse_errors:
